@@ -302,14 +302,14 @@ PROPS.update({
     },
     "C20": {
         "level": "exploration",
-        "level_text": "two parts. (1) The property itself as lemmas over the verified contracts: for 27 routines a Verus lemma takes the postcondition the routine was verified against (call_ensures of the routine) for two logically equal arrays - same shape, same elements in logical order, same index patterns; strides, memory order, offset and ownership are whatever the uninterpreted layout-revealing functions of the shim say, independently for the two - and derives that the answers agree: identical results and identical errors (both shapes in the payload) for count_eq, count_neq, weighted_sum; identical whenever the order of summation is immaterial for the element type (integers) for sq_l2_dist, l1_dist, linf_dist, l2_dist, mean_abs_err, mean_sq_err, root_mean_sq_err, mean, weighted_mean; the same real value under A-REAL (on the machine: up to summation roundoff, as the property asks) for weighted_var, weighted_std, central_moment, kurtosis, skewness, harmonic_mean, geometric_mean, entropy, kl_divergence, cross_entropy; extremal elements of the same logical array, equivalent under the element order, for argmin, argmax, min, max (which of several equivalent extremal elements is returned is not determined by the contract, nor by the code: known finding D11); equal counts in every cell for histogram(). For the quantile family the relational fact is proved over the vocabulary of the contracts instead of call_ensures (the entry points take &mut self): two arrangements of the same lane that both satisfy lane_entry - the postcondition every quantile entry point establishes per lane - give the same value when equivalent elements are identical (lemma_quantile_determined, from a proved counting argument that order statistics are determined by the multiset, shim/orderstat.rs), so neither the pivots nor the layout can influence a quantile. A contract that stops determining the answer, or a body that starts to depend on layout (as_slice_memory_order and is_standard_layout have deliberately weak contracts), fails its lemma or its postcondition. (2) For every function under a Verus contract the shim exposes only ndarray's logical interface, so the proofs hold for every layout/ownership for which ndarray honours that interface (assumption A-ND). The stride-aware unsafe code is enumerated at the memory level (enum:nanview). Every other public routine is run on pairs (canonical array, logically equal re-layout) and must return bit-identical results for order-based and integer statistics and exact results for float sums of small integers",
+        "level_text": "two parts. (1) The property itself as lemmas over the verified contracts: for 34 routines a Verus lemma takes the postcondition the routine was verified against (call_ensures of the routine) for two logically equal arrays - same shape, same elements in logical order, same index patterns; strides, memory order, offset and ownership are whatever the uninterpreted layout-revealing functions of the shim say, independently for the two - and derives that the answers agree: identical results and identical errors (both shapes in the payload) for count_eq, count_neq, weighted_sum; identical whenever the order of summation is immaterial for the element type (integers) for sq_l2_dist, l1_dist, linf_dist, l2_dist, mean_abs_err, mean_sq_err, root_mean_sq_err, mean, weighted_mean; the same real value under A-REAL (on the machine: up to summation roundoff, as the property asks) for weighted_var, weighted_std, central_moment, kurtosis, skewness, harmonic_mean, geometric_mean, entropy, kl_divergence, cross_entropy; the same real value per lane for weighted_sum_axis, weighted_mean_axis, weighted_var_axis (equal lanes along the axis); extremal elements of the same logical array, equivalent under the element order, for argmin, argmax, min, max, min_skipnan, max_skipnan, argmin_skipnan, argmax_skipnan (which of several equivalent extremal elements is returned is not determined by the contract, nor by the code: known finding D11); equal counts in every cell for histogram(). For the quantile family the relational fact is proved over the vocabulary of the contracts instead of call_ensures (the entry points take &mut self): two arrangements of the same lane that both satisfy lane_entry - the postcondition every quantile entry point establishes per lane - give the same value when equivalent elements are identical (lemma_quantile_determined, from a proved counting argument that order statistics are determined by the multiset, shim/orderstat.rs), so neither the pivots nor the layout can influence a quantile. A contract that stops determining the answer, or a body that starts to depend on layout (as_slice_memory_order and is_standard_layout have deliberately weak contracts), fails its lemma or its postcondition. (2) For every function under a Verus contract the shim exposes only ndarray's logical interface, so the proofs hold for every layout/ownership for which ndarray honours that interface (assumption A-ND). The stride-aware unsafe code is enumerated at the memory level (enum:nanview). Every other public routine is run on pairs (canonical array, logically equal re-layout) and must return bit-identical results for order-based and integer statistics and exact results for float sums of small integers",
         "level_note": "bounded: enum:layouts - random integer-valued data, shapes 1-D..4-D (<= 16 elements), F-order / stepped-in-parent / reversed axes / embedded at an offset, owned/view/shared/copy-on-write, static vs dynamic dimension; enum:nanview. Float sums under different summation orders: only exactly-representable data",
-        "technique": "relational (2-safety) lemmas over the verified contracts of 27 routines (call_ensures of the routine on two logically equal arrays) + logical-interface shim for every function under contract + bounded re-layout enumeration on the real crate (incl. the stride-aware unsafe code at the memory level)",
+        "technique": "relational (2-safety) lemmas over the verified contracts of 34 routines + the quantile determinism lemma (call_ensures of the routine on two logically equal arrays) + logical-interface shim for every function under contract + bounded re-layout enumeration on the real crate (incl. the stride-aware unsafe code at the memory level)",
         "design_ref": "DESIGN.md 4 (C20)",
-        "verus": [("nan", "N"), ("minmax", "N"), ("bins", "N"), ("deviation", "N"), ("means", "N"), ("entropy", "N"), ("moments", "N"), ("hist", "N"), ("qglue", "N")],
+        "verus": [("nan", "N"), ("minmax", "N"), ("bins", "N"), ("deviation", "N"), ("means", "N"), ("entropy", "N"), ("moments", "N"), ("hist", "N"), ("qglue", "N"), ("skipnan", "N")],
         "enum": [{"name": "layouts"}, {"name": "nanview", "abort_props": ["C04"]}, {"name": "moments"}, {"name": "entropy"}, {"name": "cov"}],
         "assumptions": [A_ND, A_VERUS, A_EXTRACT, A_ENUM, BOUNDED_NOTE],
-        "not_decided": ["floating-point sums whose value depends on summation order (roundoff bound)", "no relational lemma for: the skip-NaN family, the per-axis forms, cov / pearson_correlation, Bins / strategies: their contracts speak about the logical view only, and the re-layout enumeration covers them (bounded)"],
+        "not_decided": ["floating-point sums whose value depends on summation order (roundoff bound)", "no relational lemma for: the skip-NaN folds / visit / per-lane map (they take the caller's closure), weighted_std_axis, central_moments, cov / pearson_correlation, Bins / strategies, remove_nan_mut: their contracts speak about the logical view only, and the re-layout enumeration covers them (bounded)"],
         "rule": "one case per (shape, data, layout) pair against the canonical C-order array; non-trivial = a non-canonical layout with at least 2 elements",
     },
 })
